@@ -315,6 +315,8 @@ def _point_job(kw):
                         exp_pt = A.sym("xB", True) * (A.Rat.const(1) + A.fn_sqrt(A.Rat.const(1) + m * m * 4 / Q2)) / 2
                         if not A.equal(pt, exp_pt, tol=Fraction(0)) and not A.numerically_equal(pt, exp_pt, [{"xB": 0.3, "Q2": 7.0, "mc": 1.4, "mb": 4.5, "mt": 170.0}]):
                             bad.append(f"order {key} row {op.pids[p]}: heavy-quark initiated NC contribution convolved at {A.canon(pt)[:60]} instead of x/eta = x (1+sqrt(1+4m^2/Q^2))/2")
+                if any(a.startswith("converr(") for a in e.atoms()):
+                    bad.append(f"order {key} row {op.pids[p]} col {j}: integration errors are accumulated into the value entry (shared storage?)")
                 # errors carry the same quadratures
                 ee = erow[j]
                 atoms_e = {a.replace("converr(", "conv(", 1) for a in (ee.atoms() if isinstance(ee, A.Rat) else []) if a.startswith("converr(")}
